@@ -51,6 +51,25 @@ UFUNCS_OUT2 = {"abs", "absolute", "negative", "exp", "log", "log1p", "expm1", "s
 
 EMPTY: FrozenSet[str] = frozenset()
 
+# A name bound to a fresh display (`acc = [p]`, a comprehension) denotes a NEW
+# container whose elements alias the roots: such roots are tagged.  Container-
+# level writes (append/extend/sort, `acc[k] = v`) change the container only;
+# reading an element (`acc[0]`, `for e in acc`) gives back the untagged roots.
+ELEM = "elem:"
+
+
+def tag(roots: FrozenSet[str]) -> FrozenSet[str]:
+    return frozenset(r if r.startswith(ELEM) else ELEM + r for r in roots)
+
+
+def untag(roots: FrozenSet[str]) -> FrozenSet[str]:
+    return frozenset(r[len(ELEM):] if r.startswith(ELEM) else r for r in roots)
+
+
+def direct(roots: FrozenSet[str]) -> FrozenSet[str]:
+    """roots whose own object is denoted (not merely contained)"""
+    return frozenset(r for r in roots if not r.startswith(ELEM))
+
 
 @dataclass
 class Summary:
@@ -202,6 +221,11 @@ class Effects:
             base = self.alias(e.value, st, fi)
             if not base:
                 return EMPTY
+            if any(r.startswith(ELEM) for r in base):
+                # an element of a fresh container; a slice of it is again a fresh container
+                if isinstance(e.slice, ast.Slice):
+                    return base
+                return untag(base)
             # .loc/.iloc based selection and basic indexing give views
             if isinstance(e.value, ast.Attribute) and e.value.attr in ("iloc", "loc", "at", "iat"):
                 return EMPTY  # pandas selection returns copies for our purposes (never written through in this package)
@@ -331,11 +355,15 @@ class Effects:
 
             def tr(roots):
                 out = EMPTY
-                for r in roots:
+                for r0 in roots:
+                    t_ = r0.startswith(ELEM)
+                    r = r0[len(ELEM):] if t_ else r0
+                    res = EMPTY
                     if r.startswith("free:"):
-                        out |= st.get(r[5:], EMPTY)
+                        res = st.get(r[5:], EMPTY)
                     elif r in binding:
-                        out |= self.alias(binding[r], st, fi)
+                        res = self.alias(binding[r], st, fi)
+                    out |= tag(res) if t_ else res
                 return out
 
             if s.ret[0] == "single":
@@ -406,9 +434,14 @@ class Effects:
                     if r is not None and r[0] == "tuple":
                         pos = r[1]
                 roots = self.alias(v, st, fi)
+                if isinstance(v, (ast.List, ast.Set, ast.Dict, ast.ListComp, ast.SetComp, ast.DictComp)) or (isinstance(v, ast.Call) and isinstance(v.func, ast.Name) and v.func.id in ("list", "set", "sorted", "dict") and v.args):
+                    roots = tag(roots)
                 targets = a.targets if isinstance(a, ast.Assign) else [a.target]
                 for t in targets:
-                    bind_target(t, roots, v, pos)
+                    if isinstance(t, (ast.Tuple, ast.List)) and isinstance(v, (ast.Tuple, ast.List)):
+                        bind_target(t, untag(roots), v, pos)
+                    else:
+                        bind_target(t, roots, v, pos)
             elif n.kind == "stmt" and isinstance(a, ast.AugAssign):
                 pass  # in-place: aliasing unchanged
             elif n.kind == "for":
@@ -416,11 +449,11 @@ class Effects:
                 roots = EMPTY
                 pos = None
                 if isinstance(it, ast.Call) and isinstance(it.func, ast.Name) and it.func.id == "enumerate" and it.args:
-                    pos = [EMPTY, self.alias(it.args[0], st, fi)]
+                    pos = [EMPTY, untag(self.alias(it.args[0], st, fi))]
                 elif isinstance(it, ast.Call) and isinstance(it.func, ast.Name) and it.func.id == "zip":
-                    pos = [self.alias(x, st, fi) for x in it.args]
+                    pos = [untag(self.alias(x, st, fi)) for x in it.args]
                 else:
-                    roots = self.alias(it, st, fi)
+                    roots = untag(self.alias(it, st, fi))
                 bind_target(a.target, roots, None, pos)
             elif n.kind == "with":
                 for it in a.items:
@@ -462,11 +495,11 @@ class Effects:
                 if isinstance(a, (ast.Assign, ast.AnnAssign, ast.AugAssign)) or n.kind == "for":
                     for t in assign_targets(a):
                         if isinstance(t, ast.Subscript):
-                            roots = self.alias(t.value, st, fi)
+                            roots = direct(self.alias(t.value, st, fi))
                             if roots:
                                 sites.append(WriteSite(roots, a, "element store"))
                         elif isinstance(t, ast.Attribute) and not (isinstance(t.value, ast.Name) and t.value.id in ("self", "cls")):
-                            roots = self.alias(t.value, st, fi)
+                            roots = direct(self.alias(t.value, st, fi))
                             if roots:
                                 sites.append(WriteSite(roots, a, "attribute store"))
                     if isinstance(a, ast.AugAssign) and isinstance(a.target, ast.Name):
@@ -508,7 +541,7 @@ class Effects:
         # out= keyword
         o = kwarg(call, "out")
         if o is not None:
-            roots = self.alias(o, st, fi)
+            roots = untag(self.alias(o, st, fi))
             if roots:
                 sites.append(WriteSite(roots, call, "out= argument"))
         if name and name.startswith("numpy."):
@@ -532,6 +565,10 @@ class Effects:
         if isinstance(f, ast.Attribute):
             if f.attr in INPLACE_METHODS or f.attr in CONTAINER_MUTATORS:
                 roots = self.alias(f.value, st, fi)
+                if f.attr in CONTAINER_MUTATORS:
+                    roots = direct(roots)
+                else:
+                    roots = untag(roots)
                 if roots:
                     sites.append(WriteSite(roots, call, f".{f.attr}() works in place"))
             if f.attr in RNG_DRAW_METHODS and not (name or "").startswith(("numpy.random.", "random.")):
@@ -562,7 +599,7 @@ class Effects:
                     elif p.startswith("free:"):
                         roots = st.get(p[5:], EMPTY)
                     elif p in binding:
-                        roots = self.alias(binding[p], st, fi)
+                        roots = untag(self.alias(binding[p], st, fi))
                     else:
                         roots = EMPTY
                     if roots:
@@ -573,6 +610,8 @@ class Effects:
         s = Summary()
         for w in sites:
             for r in w.roots:
+                if r.startswith(ELEM):
+                    continue
                 if r not in s.writes:
                     where = f"{fi.module.relpath}:{getattr(w.node, 'lineno', 0)} {w.how}" + (f" via {w.via}" if w.via else "")
                     s.writes[r] = where
